@@ -355,6 +355,10 @@ func (bindings *BindStms) compileWildcard(binding *BindStm,
 	ref := binding.Exp.(*RefExp)
 	var errs ErrorList
 	if ref.Kind == KindSelf && ref.Id == "" {
+		if pipeline == nil {
+			return global.err(ref,
+				"ReferenceError: this binding cannot be resolved outside of a stage or pipeline.")
+		}
 		fakeBindings := make([]BindStm, len(pipeline.InParams.List))
 		for i, m := range pipeline.InParams.List {
 			if _, ok := params.GetParam(m.Id); !ok {
